@@ -1,15 +1,16 @@
 #!/bin/bash
 # tools/seeded.sh <seeded-dir>... : run the quick tier of each seeded change's property against a scratch
-# worktree of /repo with the change applied. Prints one result line per change and appends it to
-# /var/tmp/seeded/results.tsv. Evidence/replays of these runs go to /var/tmp/seeded/<name>/, never to /verif.
+# worktree of /repo with the change applied, and record the outcome in <seeded-dir>/result-<check>-<tier>.json.
+# Evidence/replays of these runs go to /var/tmp/seeded/<name>/, never to /verif/evidence.
 # Equivalent to `git -C /repo apply patch.diff; ./bin/check <id> quick; git -C /repo checkout -- .` but can
 # run several changes side by side. SEEDED_TIER=thorough for the thorough tier; SEEDED_CHECK=<id> to run
-# another property's check against the change.
+# another property's check against the change; SEEDED_JOBS workers (default 8).
 . /verif/env.sh
 mkdir -p /var/tmp/seeded
 for d in "$@"; do
-  d=${d%/}; name=$(basename $d)
+  d=$(cd $d && pwd); name=$(basename $d)
   prop=${SEEDED_CHECK:-$(python3 -c "import json,sys;print(json.load(open('$d/meta.json'))['property'])")}
+  tier=${SEEDED_TIER:-quick}
   wt=/tmp/seedwt/$name-$$
   rm -rf $wt; git -C /repo worktree prune; git -C /repo worktree add --detach $wt HEAD >/dev/null 2>&1 || { echo "$name worktree failed"; continue; }
   if ! git -C $wt apply $d/patch.diff 2>/var/tmp/seeded/$name.apply.err; then
@@ -17,11 +18,22 @@ for d in "$@"; do
   fi
   out=/var/tmp/seeded/$name-$prop; rm -rf $out; mkdir -p $out
   start=$(date +%s)
-  VERIF_REPO=$wt VERIF_OUT=$out VERIF_SCRATCH=/var/tmp/seeded/scr-$name-$$ VERIF_JOBS=${SEEDED_JOBS:-8} /verif/bin/check $prop ${SEEDED_TIER:-quick} > $out/log.txt 2>&1
+  VERIF_REPO=$wt VERIF_OUT=$out VERIF_SCRATCH=/var/tmp/seeded/scr-$name-$$ VERIF_JOBS=${SEEDED_JOBS:-8} /verif/bin/check $prop $tier > $out/log.txt 2>&1
   rc=$?
   el=$(( $(date +%s) - start ))
-  viol=$(grep -m1 '^VIOLATION' $out/log.txt)
-  cls=$(grep -m1 'class=' $out/log.txt | grep -v KNOWN | sed 's/^ *//' | cut -c1-100)
-  echo -e "$name\t$prop\texit=$rc\t${el}s\t$cls" | tee -a /var/tmp/seeded/results.tsv
+  python3 - "$d" "$prop" "$tier" "$rc" "$el" "$out/log.txt" "$(git -C /repo rev-parse --short HEAD)" <<'PY'
+import json,sys,re
+d,prop,tier,rc,el,log,head=sys.argv[1:]
+txt=open(log).read()
+viol=[l for l in txt.splitlines() if l.startswith('VIOLATION')]
+cls=[l.strip() for l in txt.splitlines() if l.strip().startswith('class=')]
+summ=[l for l in txt.splitlines() if l.startswith('kapsim: %s %s:'%(prop,tier))]
+first=''
+if viol:
+    i=txt.splitlines().index(viol[0]); first='\n'.join(txt.splitlines()[i+1:i+6])[:1200]
+res={"check":prop,"tier":tier,"repo_head":head,"exit":int(rc),"detected":int(rc)==1,"elapsed_s":int(el),"violations":viol[:3],"classes":cls[:3],"first_violation":first,"summary":summ[-1] if summ else ''}
+json.dump(res,open('%s/result-%s-%s.json'%(d,prop,tier),'w'),indent=1)
+print('%s\t%s\t%s\texit=%s\t%ss\t%s'%(d.split('/')[-1],prop,tier,rc,el,(cls[0] if cls else '')[:90]))
+PY
   git -C /repo worktree remove --force $wt; rm -rf /var/tmp/seeded/scr-$name-$$
 done
